@@ -109,6 +109,12 @@ type evBad struct {
 	C chan int `json:"c"`
 }
 
+// evF is encodable unless F is NaN.
+type evF struct {
+	N int     `json:"n"`
+	F float64 `json:"f"`
+}
+
 // evNamed carries a custom type name on a value receiver.
 type evNamed struct {
 	N int `json:"n"`
@@ -130,14 +136,17 @@ func (e *evNamedP) EventTypeName() string { return evNamedPName }
 // flakyStore wraps the real MemoryStore; each Append consumes one outcome:
 // 0 ok, 1 rejected with errInjected, 2 deadline expired.
 type flakyStore struct {
-	inner    *MemoryStore
-	outcomes []int
-	calls    int
+	inner       *MemoryStore
+	outcomes    []int
+	calls       int
+	sawDeadline []bool // whether each Append's context carried a deadline
 }
 
 func (f *flakyStore) Append(ctx context.Context, e *Event) (Offset, error) {
 	i := f.calls
 	f.calls++
+	_, hasDeadline := ctx.Deadline()
+	f.sawDeadline = append(f.sawDeadline, hasDeadline)
 	out := 0
 	if i < len(f.outcomes) {
 		out = f.outcomes[i]
